@@ -401,8 +401,16 @@ def build_unit(template_path, repo):
             out.append(itxt)
             cur_line += itxt.count("\n") + 1
             continue
+        if s.startswith("//@harness-prefix"):
+            # module path of the harness functions in this unit (default u::vharness::); a harness
+            # module nested inside the module of the extracted text can name its private items
+            ub.prefix = s.split(None, 1)[1].strip()
+            out.append(ln)
+            cur_line += 1
+            continue
         if s.startswith("//@harness"):
             pending_h = _parse_directive(s)
+            pending_h["prefix"] = getattr(ub, "prefix", "u::vharness::")
             if "name" in pending_h:      # macro-generated harness: name given explicitly
                 pending_h["props"] = pending_h.get("props", "").split(",")
                 ub.harnesses.append(pending_h)
@@ -512,7 +520,26 @@ def extract_fragment(repo, d):
         txt = src.text[a:b]
         return txt, [frag(a, b, "nested-item", d["in"] + "/" + d["item"], 0, txt.count("\n"))]
     if "arm" in d:
-        p, ln = src.find_seq(d["arm"], lo, hi, nth)
+        # occurrences of the pattern that are really arm heads: directly followed by `=>`, a guard
+        # (`if`) or an alternative (`|`); falls back to plain occurrences if there is none
+        want_n = len([t for t in tokenize(d["arm"]) if t.kind not in (WS, COMMENT)])
+        heads = []
+        k = 1
+        while True:
+            try:
+                hp, hl = src.find_seq(d["arm"], lo, hi, k)
+            except LostAnchor:
+                break
+            nx = src.t(hp + hl)
+            if (nx.text == "=" and src.t(hp + hl + 1).text == ">") or (nx.kind == IDENT and nx.text == "if") or nx.text == "|":
+                heads.append((hp, hl))
+            k += 1
+        if heads:
+            if len(heads) < nth:
+                raise LostAnchor("%s: arm %r: %d arm heads, wanted #%d" % (rel, d["arm"], len(heads), nth))
+            p, ln = heads[nth - 1]
+        else:
+            p, ln = src.find_seq(d["arm"], lo, hi, nth)
         # find `=>` at the same depth after the pattern
         q = p + ln
         while q < hi:
